@@ -178,10 +178,10 @@ Theorem cpp_capcheck_is_spec : forall t v cap, ser_model cpp_capcheck t v cap = 
 Proof. intros. apply good_capcheck_spec. vm_compute. reflexivity. Qed.
 
 (* the size handed to the serializer of a nested composite (C `size_bytes`) is the nested type's advertised buffer size *)
-Theorem c_nested_size_is_buffer_bytes : forall t, is_comp t = true -> 8 * 0 <= 0 ->
+Theorem c_nested_size_is_buffer_bytes : forall t, is_comp t = true ->
   exists q, meval c_nested_size_bytes t = Some q /\ 8 * q = Z.of_nat (bmax t).
 Proof.
-  intros t Hc _.
+  intros t Hc.
   assert (Hm : (bmax t mod 8 = 0)%nat) by (destruct t; try discriminate; apply comp_bmax_mod8).
   assert (Hg : bytes_of_src c_nested_size_bytes (fun s => msrc_eqb s SrcInnerExtent || msrc_eqb s SrcInnerMax) = true)
     by (vm_compute; reflexivity).
